@@ -1,15 +1,41 @@
-"""C04 -- see DESIGN.md section 5.  Deductive targets are added below the bounded import."""
+"""C04 -- a run always ends in a valid exit status and never leaks a handler failure."""
+import z3
+
+from pyvc.contracts import REG as R
+from pyvc.kinds import Kind
+from pyvc.state import V, Out
+from . import app_contracts as ac
+
 PROP = "C04"
 LEVEL = "other"
-EXPLANATION = "under construction: bounded run-time contract checks on the real code; deductive obligations are being added"
-UNDER_CONSTRUCTION = True
-NOT_APPLICABLE = "check under construction in this round (see DESIGN.md section 5 for the plan); not claimed yet"
-TARGETS = []
+EXPLANATION = "under construction"
+TARGETS = [
+    ac.M_CMD + ":Command.handle",
+    ac.M_APP + ":ConsoleApplication.exception_to_exit_code",
+    ac.M_APP + ":ConsoleApplication.run",
+]
 LEMMAS = []
+
+
+def _opaque(E, st, fn, args, kwargs):
+    """the io factory: an arbitrary callable that returns an IO or raises"""
+    s2, r = E.new_ref(st)
+    io = V(Kind("ref", "IO"), r)
+    tc = E.type_constraint(io)
+    s2 = s2.assume(tc)
+    s3, e = E.mk_exc(st, "Exception")
+    e.aux["abstract"] = True
+    s4, k = E.mk_exc(st, "KeyboardInterrupt")
+    E.trusted.add("opaque callable (io factory): returns a fresh IO or raises; touches no field of the application")
+    return [Out("ok", s2, io), Out("raise", s3, e), Out("raise", s4, k)]
+
+
+R.opaque_hook = _opaque
+
 try:
-    from .C04_bounded import bounded, BOUNDED_RULE  # noqa: F401
+    from .C04_bounded import bounded, BOUNDED_RULE  # noqa
     try:
-        from .C04_bounded import replay_bounded  # noqa: F401
+        from .C04_bounded import replay_bounded  # noqa
     except ImportError:
         pass
 except ImportError:
